@@ -82,7 +82,7 @@ PROPS = {
                          "APF extractor (go/ast + go/types, independent of gogreement) as the abstraction function; go/types for type information"],
     },
     "C02": {
-        "theorems": T("C02", ["constructor_exact", "ctorNode_eq_sites", "ctorHit_iff", "constructor_silent_var", "constructor_silent_unannotated", "constructor_silent_inside", "constructor_foreign_name_not_exempt", "ctor_names_from_grammar"]) + ["GGV.Model.Prog.ctorDecl_eq"],
+        "theorems": T("C02", ["constructor_exact", "ctorNode_eq_sites", "ctorHit_iff", "constructor_silent_var", "constructor_silent_unannotated", "constructor_silent_inside", "constructor_foreign_name_not_exempt", "ctor_names_from_grammar", "initialised_spec_silent", "var_group_by_spec", "var_group_skip_initialised"]) + ["GGV.Model.Prog.ctorDecl_eq"],
         "suites": [("prog", {"focus": "CTOR,ANN:K"}), ("prog", {"focus": "CTOR,ANN:K", "scan": "1", "testfiles": "1", "n": 30, "nocorpus": "1"}),
                    ("std", {"withmodel": "1", "focus": "CTOR,ANN:K"})],
         "assumptions": [
